@@ -192,7 +192,7 @@ impl Monitor for ProRataMonitor {
 impl ProRataMonitor {
     fn after_ok(&mut self, h: &Hist, pre: &Snap, post: &Snap, op: &Op, r: &OpResult, _l: &mut Local) -> Result<(), String> {
         match op {
-            Op::Swap { .. } | Op::SwapBack { .. } => {
+            Op::Swap { .. } | Op::SwapBack { .. } | Op::SwapExact { .. } => {
                 let sp = r.swap.as_ref().unwrap();
                 let tok = if sp.a_to_b { 0 } else { 1 };
                 let prate = pre.pool.protocol_fee_rate as u32;
